@@ -792,6 +792,13 @@ def runRestLine (r : Report) (sec : Nat) (cfg : RestCfg) (st : RestSt) (l : Line
           let mshow := show_ run.ran run.status model.2.1 (count "cm" run.saw) musesRan model.2.2.1 model.2.2.2 mseen
           let oshow := show_ ran status ctx cm use ucb scb seen
           let r := if mshow ≠ oshow then r.mismatch sec l.idx mshow oshow else r
+          -- inter: another request went through the server while this one sat in its handler: the handler still reads ITS body
+          let r := match kv? a "inter" with
+            | some ik => r.addCover s!"rest-inter-{ik}-{if ran then "A-ran" else "A-refused"}"
+            | none => r
+          let r := if ran ∧ seen ≠ sentBody then
+              r.violation sec l.idx s!"rest: the handler ran on a body that is not the body the request carried (and its covering signature digests) [chain {chainName}, group {groupName opts}, tok={kvStr a "tok"} cs={kvStr a "cs"} inter={kvStr a "inter"}] [{oshow}]"
+            else r
           -- the group's OWN decrypters (model: `loadDecrypters` over the group's key list) against the harness' fact
           let own := cfg.keys.getD g []
           let fpSent := ((kv? o "fp").bind unhexStr).getD ""
